@@ -27,7 +27,7 @@ func init() {
 func inputSources(ctx *fw.Ctx, nStressQuick, nStressThorough int) []corpus.Source {
 	srcs := baseSources()
 	srcs = append(srcs, corpus.StressSources(ctx.Rand("stress"), ctx.Pick(nStressQuick, nStressThorough), 10, 300)...)
-	srcs = append(srcs, mgenSources(ctx, ctx.Pick(500, 8000))...)
+	srcs = append(srcs, mgenSources(ctx, ctx.Pick(500, 30000))...)
 	return srcs
 }
 
